@@ -65,6 +65,19 @@ theorem Str.transfer {P s s'} (h : Str P s)
   · intro j j' k h1 h2; rw [(ho j).1] at h1; rw [(ho j').1] at h2; exact h.inj j j' k h1 h2
   · rw [ha]; exact h.addedSorted
 
+/-- `Str` looks at `_cache` through lookups only -/
+theorem Str.congrGet {P s s'} (h : Str P s) (ho : s'.objs = s.objs)
+    (hc : ∀ k, s'.cache.get k = s.cache.get k) (ha : s'.added = s.added)
+    (hn : s'.nextOid = s.nextOid) : Str P s' := by
+  constructor
+  · intro k j hj; rw [hc] at hj; rw [ho]; exact h.cacheS k j hj
+  · intro k j hj; rw [ha] at hj; rw [ho, hc]; exact h.addedS k j hj
+  · rw [ho]; exact h.jarOid
+  · intro j k hj; rw [ho] at hj; rw [hc, ha]; exact h.known j k hj
+  · rw [ho, hn]; exact h.fresh
+  · rw [ho]; exact h.inj
+  · rw [ha]; exact h.addedSorted
+
 /-- an object that is in `_cache` or `_added` need not be listed as pending -/
 theorem Str.drop {P s} {i k : Nat} (h : Str (i :: P) s) (hk : (s.objs i).oid = some k)
     (hkn : s.cache.get k = some i ∨ s.added.get k = some i) : Str P s := by
